@@ -258,7 +258,8 @@ pub fn prayer_times_dt(
             .map(|x| (*x.0, x.1.map(|y| to_prayer_time(params, *x.0, y)))),
     );
 
-    let imsaak = get_imsaak(params, &top_astro_day, weather);
+    let fajr_extreme = matches!(hours[&Fajr], Ok(hour) if hour.extreme);
+    let imsaak = get_imsaak(params, &top_astro_day, weather, fajr_extreme);
     times.insert(Imsaak, imsaak);
     times
 }
@@ -276,6 +277,7 @@ fn get_imsaak(
     params: &Params,
     top_astro_day: &TopAstroDay,
     weather: Weather,
+    fajr_extreme: bool,
 ) -> Result<PrayerTime, ()> {
     use Prayer::*;
 
@@ -294,18 +296,16 @@ fn get_imsaak(
 
     let mut hours = get_hours_adj_ext(&params_adj, top_astro_day, weather);
     let mut extreme = false;
-    if let Ok(hour) = hours[&Fajr] {
-        if hour.extreme {
-            extreme = true;
-            params_adj = params.clone();
-            *params_adj.minutes.get_mut(&Fajr).unwrap() -= if params.intervals[&Imsaak] == 0. {
-                Params::DEF_IMSAAK_ANGLE
-            } else {
-                params.intervals[&Imsaak]
-            };
+    if fajr_extreme || matches!(hours[&Fajr], Ok(hour) if hour.extreme) {
+        extreme = true;
+        params_adj = params.clone();
+        *params_adj.minutes.get_mut(&Fajr).unwrap() -= if params.intervals[&Imsaak] == 0. {
+            Params::DEF_IMSAAK_ANGLE
+        } else {
+            params.intervals[&Imsaak]
+        };
 
-            hours = get_hours_adj_ext(&params_adj, top_astro_day, weather);
-        }
+        hours = get_hours_adj_ext(&params_adj, top_astro_day, weather);
     }
 
     hours[&Fajr].map(|mut x| {
